@@ -107,6 +107,10 @@ pub fn trigger_tags(program: &e1::ast::Program) -> Vec<String> {
                 val(v, tags);
                 comp(k, tags);
             }
+            | Monadic { body, args, .. } => {
+                comp(body, tags);
+                args.iter().for_each(|(a, _)| val(a, tags));
+            }
         }
     }
     fn val(v: &e1::ast::Val, tags: &mut Vec<String>) {
